@@ -348,7 +348,7 @@ func longLived(cfg rpcConfig, maxDepth, seqCalls, concCalls int) (fails []vh.Fai
 		}
 	}
 	for i := 0; i < seqCalls; i++ {
-		c := mkCall(r, i)
+		c := mkCall(r, i, cfg.codec)
 		err, ok := do(c)
 		if !ok {
 			fail("hang", "a sequential call on a long-lived connection did not return within the deadline", map[string]interface{}{"call": i})
@@ -366,7 +366,7 @@ func longLived(cfg rpcConfig, maxDepth, seqCalls, concCalls int) (fails []vh.Fai
 		oks := make([]bool, batch)
 		var wg sync.WaitGroup
 		for j := range calls {
-			calls[j] = mkCall(r, seqCalls+base+j)
+			calls[j] = mkCall(r, seqCalls+base+j, cfg.codec)
 			wg.Add(1)
 			go func(j int) {
 				defer wg.Done()
